@@ -34,6 +34,13 @@ def shards(tier, seed):
     _out = [{'kind': 'random', 'count': per, 'budget_s': budget, 'max_g': 10 if tier == 'quick' else 22} for _ in range(16)]
     _out.append({'kind': 'deep', 'count': 2 if tier == 'quick' else 20, 'budget_s': budget,
                  'depths': [1100, 1400] if tier == 'quick' else netgen.DEEP_THOROUGH})
+    if tier == 'quick':
+        for part in range(8):
+            _out.append({'kind': 'size_sweep', 'type': 'NOT', 'lengths': list(range(1 + part, 701, 8)), 'budget_s': budget})
+    else:
+        for t, top in (('NOT', 2600), ('AND', 1800), ('XOR', 1300), ('GEQ', 1800)):
+            for part in range(8):
+                _out.append({'kind': 'size_sweep', 'type': t, 'lengths': list(range(1 + part, top + 1, 8)), 'budget_s': budget})
     if tier == 'thorough':
         _out.append({'kind': 'suite', 'select': ['tests/cirbo/sat', 'tests/cirbo/minimization'], 'budget_s': 900})
     return _out
@@ -275,6 +282,35 @@ def check_case(case, ctx):
         ctx.unexpected('is_circuit_satisfiable', e, case)
 
 
+def run_size_sweep(spec, ctx):
+    """Circuit sizes (hence CNF sizes) swept contiguously: a chain of L gates of one type over two inputs, asked once
+    with a satisfiable and once with a contradictory pair of outputs.  The answer oracle needs only the truth table."""
+    from cirbo.sat import is_circuit_satisfiable
+    t = spec['type']
+    for L in spec['lengths']:
+        if ctx.out_of_time():
+            ctx.note_inconclusive('size sweep not finished within the budget')
+            return
+        g = {'a': ('INPUT', ()), 'b': ('INPUT', ())}
+        prev = 'a'
+        for k in range(L):
+            g['s%d' % k] = (t, (prev,)) if t in ('NOT', 'IFF') else (t, (prev, 'b'))
+            prev = 's%d' % k
+        g['neg'] = ('NOT', (prev,))
+        for outs in ([prev], ['neg', prev]):
+            net = refsem.Net(['a', 'b'], list(outs), dict(g))
+            case = {'kind': 'size_sweep', 'type': t, 'length': L, 'outputs': list(outs)}
+            CUR['case'] = case
+            with monitor.suspended():
+                c = netgen.build(net)
+            try:
+                r = is_circuit_satisfiable(c)
+                ctx.count('size_sweep:' + ('sat' if r.answer else 'unsat'))
+            except Exception as e:
+                ctx.unexpected('is_circuit_satisfiable', e, case)
+            ctx.case('sweep:%s:%d:%r' % (t, L, outs), True, cls='shape:size_sweep')
+
+
 def gen_case(rng, spec):
     shape = rng.choice(netgen.SHAPES + ['nary', 'chain'])
     net = netgen.rand_net(rng, shape=shape, max_in=5, min_in=1, max_g=spec.get('max_g', 10), max_arity=5,
@@ -304,6 +340,9 @@ def run_shard(spec, ctx):
         from vt import suite
         import sys
         suite.run(sys.modules[__name__], ctx, select=spec.get('select'))
+        return
+    if spec.get('kind') == 'size_sweep':
+        run_size_sweep(spec, ctx)
         return
     for i in range(spec['count']):
         if ctx.out_of_time():
